@@ -32,7 +32,8 @@ TRUSTED = ['A1 float == real; A2 object arrays == float arrays', 'pinv / factori
 ASSUMPTIONS = ['steps positive; f twice differentiable; step ratio 1/q with q in (0,1)']
 NOT_DECIDED = ['residual error powers of the Hessian quotients on non-quadratic f (only the Richardson (order, step) pairing is '
                'checked); accuracy envelope; agreement of Hessian and Hessdiag "within their error estimates" for nonlinear f']
-BOUNDED = ['dimension enumerated: quick 1..3, thorough 1..6 (the property\'s range)']
+BOUNDED = ['integer-x: integer-typed x (3 concrete x, 6 methods, 2 classes) compared with float x -- executed with the real numpy, not proved',
+           'dimension enumerated: quick 1..3, thorough 1..6 (the property\'s range)']
 QUANTIFIED = 'c, g, Q, x, per-coordinate steps h_j, q, and all values of the uninterpreted f: universally quantified'
 
 HMETHODS = ['central', 'central2', 'forward', 'backward', 'complex', 'multicomplex']
@@ -55,6 +56,7 @@ def groups(tier):
     out.append(('hessian-rule', ('hrule',)))
     for klass in ('Hessian', 'Hessdiag'):
         out.append(('call[%s]' % klass, ('call', klass, tier)))
+    out.append(('integer-x', ('intx',)))
     return out
 
 
@@ -252,7 +254,8 @@ def run_call(klass, tier):
         core, mc, fd = mm['core'], mm['mc'], mm['fd']
         q = real('q'); r = Recip(q)
         S2 = list(CTX.const_facts.values())
-        variants = [('plain', False, False), ('length-1-array-f', True, False), ('complex-valued-f', False, True)]
+        variants = [('plain', False, False), ('length-1-array-f', True, False), ('complex-valued-f', False, True),
+                    ('second-call-with-other-args', False, False)]
         for d in (dims(tier)[:3] if tier == 'quick' else [1, 2, 3, 4]):
             for method in HMETHODS:
                 for vname, arr1, cplxf in variants:
@@ -265,8 +268,13 @@ def run_call(klass, tier):
                         tag = '%s,d=%d,order=%d,%s%s:' % (method, d, order, vname, '' if full else ',full_output=False')
                         c0, g, Q, f0 = quadratic(d, mc, cplx_coef=cplxf)
 
-                        def f(z):
+                        hist = vname == 'second-call-with-other-args'
+                        s1, s2 = real('s1'), real('s2')
+
+                        def f(z, scale=None):
                             v = f0(z)
+                            if hist:
+                                v = v * scale      # f(x, scale) = scale * quadratic(x): Hessian == scale * Q
                             if arr1 and not isinstance(v, mc.Bicomplex):
                                 return SymArr([v])
                             return v
@@ -286,7 +294,7 @@ def run_call(klass, tier):
                                 return wrap(res[0].reshape(shape)), core._Limit.info(wrap(np.zeros(res[0].shape).reshape(shape)),
                                                                                      wrap(stp[0].reshape(shape)), np.arange(res.shape[1]))
                             obj._extrapolate = spy
-                            paths = explore(lambda: obj(x), pre=[q.t > 0, q.t < 1] + [z3.Real('h%d' % j) > 0 for j in range(d)], max_paths=16)
+                            paths = explore((lambda: (obj(x, s1), obj(x, s2))[1]) if hist else (lambda: obj(x)), pre=[q.t > 0, q.t < 1] + [z3.Real('h%d' % j) > 0 for j in range(d)], max_paths=16)
                         ok = len(paths) == 1 and paths[0].exc is None
                         solve.fact(tag + 'runs-on-a-single-path', ok, note=str([repr(p.exc)[:160] for p in paths if p.exc][:1]))
                         if not ok:
@@ -308,6 +316,8 @@ def run_call(klass, tier):
                         tab = asobj(res).reshape((asobj(res).shape[0],) + tuple(shape))
                         for idx in np.ndindex(wshape):
                             want = Q[idx[0]][idx[1]] if klass == 'Hessian' else Q[idx[0]][idx[0]]
+                            if hist:
+                                want = want * s2     # the second call's own argument
                             for rr in sorted({0, tab.shape[0] - 1}):
                                 got = C.lift(lift(tab[(rr,) + idx])); w = C.lift(lift(want))
                                 solve.prove(tag + 'table[%d]%s==Q-entry' % (rr, idx), z3.And(got.re.t == w.re.t, got.im.t == w.im.t), H)
@@ -317,7 +327,23 @@ def run_call(klass, tier):
     return info
 
 
+def _int_poly3(x):
+    return x[0] ** 2 * x[1] + 3 * x[0] * x[1] ** 2 + x[2] ** 3 + x[0] * x[2]
+
+
+INT_XS = [[1, 2, 3], np.array([2, 1, 4]), np.array([1, -2, 3], dtype=np.int32)]
+
+
+def run_intx():
+    from .common import integer_input_cases
+    integer_input_cases([('Hessian', _int_poly3, INT_XS, {}), ('Hessdiag', _int_poly3, INT_XS, {})],
+                        lambda c: ['central', 'central2', 'forward', 'backward', 'complex', 'multicomplex'])
+    return {}
+
+
 def run_group(args):
+    if args[0] == 'intx':
+        return run_intx()
     if args[0] == 'quad':
         return run_quad(args[1])
     if args[0] == 'sym':
@@ -334,6 +360,9 @@ def run_group(args):
 def replay_case(ob):
     import re
     nm = ob['name']
+    mm = re.search(r'integer-x/(\w+),(\w+):', nm)
+    if mm:
+        return dict(kind='common.intx', klass=mm.group(1), method=mm.group(2), f='poly3')
     mm = re.search(r'call\[(\w+)\]/(\w+),d=(\d+),order=(\d+),([\w-]+)', nm)
     if mm:
         return dict(kind='C04.call', klass=mm.group(1), method=mm.group(2), d=int(mm.group(3)), order=int(mm.group(4)), variant=mm.group(5))
